@@ -165,6 +165,7 @@ class TreeModel:
 
     def interp(self, cls=None, max_traces: int = 96, max_depth: int = 5) -> Interp:
         it = Interp(self.prog, cls, self.atom, self.call_model, max_depth=max_depth, max_traces=max_traces)
+        it.instantiate_classes = True      # a per-call helper object of the repository (a method object for one expansion step) is followed
         return it
 
 
